@@ -188,6 +188,17 @@ def run_flavour(prop, tier, seed, flavour, scale, wdir, budget_s, nshards=None):
     while not all(s.done for s in shards):
         time.sleep(0.05)
         now = time.time()
+        if len(crashes) >= 8:
+            # enough abnormal terminations to report: do not grind through hundreds of them
+            for sh in shards:
+                if not sh.done:
+                    sh.proc.kill()
+                    sh.proc.wait()
+                    if os.path.exists(sh.out):
+                        pass
+                    sh.done = True
+            inconclusive.append("flavour %s stopped early after %d abnormal terminations" % (flavour, len(crashes)))
+            break
         for sh in shards:
             if sh.done:
                 continue
